@@ -214,6 +214,19 @@ Example C16_routing_fresh_nonvacuous :
 Proof. exact gen_fresh_example. Qed.
 Print Assumptions C16_routing_fresh_nonvacuous.
 
+(** the accessor the run loop's timer uses (repair of simconnids/idle-expired-still-routed):
+    NextRetireTime is the earliest pending expiry, 0 iff nothing waits, and a wake-up at that
+    time followed by RemoveRetiredConnIDs removes that entry *)
+Theorem C16_next_retire_earliest : forall i cd l0 ops,
+  let g := gen_run ops (gen_init i cd l0) in
+  (g_toretire g = [] -> gen_next_retire g = 0) /\
+  (g_toretire g <> [] -> exists c, In (gen_next_retire g, c) (g_toretire g)) /\
+  (forall y, In y (g_toretire g) -> gen_next_retire g <= fst y) /\
+  (forall y, In y (g_toretire g) ->
+     ~ In (gen_next_retire g) (map fst (g_toretire (fst (gen_step (GRemoveRetired (gen_next_retire g)) g))))).
+Proof. exact gen_next_retire_earliest. Qed.
+Print Assumptions C16_next_retire_earliest.
+
 Theorem C16_expired_removed_exactly : forall i cd l0 ops now,
   Forall not_close ops ->
   let g := gen_run ops (gen_init i cd l0) in
